@@ -295,3 +295,19 @@ pub fn try_extract_signature_id_from_field(
         _ => None,
     }
 }
+
+#[cfg(emmyluals_emmylua_analyzer_rust_verif)]
+impl LuaPropertyIndex {
+    /// Verification hook: entry counts of every container of this index.
+    pub fn verif_sizes(&self) -> Vec<(&'static str, usize)> {
+        vec![
+            ("properties", self.properties.len()),
+            ("property_owners_map", self.property_owners_map.len()),
+            ("in_filed_owner", self.in_filed_owner.len()),
+            (
+                "in_filed_owner/owners",
+                self.in_filed_owner.values().map(|v| v.len()).sum(),
+            ),
+        ]
+    }
+}
